@@ -701,7 +701,7 @@ func init() {
 	register(&Property{
 		ID:    "C13",
 		Level: "other",
-		Explanation: "Decides the structural necessary conditions of crash-safe certificate bookkeeping on every path: C13-pk — certificate_info PRIMARY KEY(height), history PRIMARY KEY(height, retry_count), identical column lists (schema computed from the embedded migrations); C13-replace — every storage function that opens a transaction pairs it, writes only through it and never drops a write error; SaveLastSentCertificate looks the existing record up on the tx by the new height, moves/deletes exactly that record before the insert, aborts on lookup errors; statements of move/delete parsed and bound; C13-first — the send loop starts only after CheckInitialStatus returned, which happens only after a successful reconciliation or cancellation; a contradiction reported by process() executes nothing; C13-recover — the record rebuilt from an Agglayer header takes Height/ID/LERs/Status from the header, FromBlock from the metadata and ToBlock = FromBlock+Offset (V1/V2) or the V0 ToBlock, and is saved through SaveLastSentCertificate; C13-decide — every deciding return of initialStatus.process is matched with its dominating branch facts against the case table (update only for equal ids at equal-or-not-next height; insert only when nothing is local or the Agglayer is exactly one ahead (constant +1); adopt a pending certificate only at height 0; nothing only when both sides are empty or the lone pending is in error at a wrong height) and the three contradictions always end in an error; action dispatch checked. The end-to-end 'submit, crash anywhere, restart, next certificate is right' is not decided. Added after the sub-agent rounds: C13-last (every 'last certificate' reader selects the greatest height; lookups by height are bound to their argument) and C13-read (a failed read is answered as 'no certificate' / not found only for sql.ErrNoRows; updateCertificateStatus reports success only when the statuses were equal or the Agglayer's status was written to the record and stored).",
+		Explanation: "Decides the structural necessary conditions of crash-safe certificate bookkeeping on every path: C13-pk — certificate_info PRIMARY KEY(height), history PRIMARY KEY(height, retry_count), identical column lists (schema computed from the embedded migrations); C13-replace — every storage function that opens a transaction pairs it, writes only through it and never drops a write error; SaveLastSentCertificate looks the existing record up on the tx by the new height, moves/deletes exactly that record before the insert, aborts on lookup errors; statements of move/delete parsed and bound; C13-first — the send loop starts only after CheckInitialStatus returned, which happens only after a successful reconciliation or cancellation; a contradiction reported by process() executes nothing; C13-recover — the record rebuilt from an Agglayer header takes Height/ID/LERs/Status from the header, FromBlock from the metadata and ToBlock = FromBlock+Offset (V1/V2) or the V0 ToBlock, and is saved through SaveLastSentCertificate; C13-decide — every deciding return of initialStatus.process is matched with its dominating branch facts against the case table (update only for equal ids at equal-or-not-next height; insert only when nothing is local or the Agglayer is exactly one ahead (constant +1); adopt a pending certificate only at height 0; nothing only when both sides are empty or the lone pending is in error at a wrong height) and the three contradictions always end in an error; action dispatch checked. The end-to-end 'submit, crash anywhere, restart, next certificate is right' is not decided. Added after the sub-agent rounds: C13-last (every 'last certificate' reader selects the greatest height; lookups by height are bound to their argument) and C13-read (a failed read is answered as 'no certificate' / not found only for sql.ErrNoRows; updateCertificateStatus reports success only when the statuses were equal or the Agglayer's status was written to the record and stored). Added after round 7: C13-inputs, C13-next (shared with C02-next), the UPDATE of UpdateCertificateStatus sets exactly (status, updated_at) of the row certificate_id unconditionally, (nil, nil) of updateLocalStorageWithAggLayerCert only when there is nothing to rebuild from.",
 		Rules: []Rule{
 			{ID: "C13-last", Floor: 6, Run: c13Last, Text: "SQL: 'the last sent certificate' is the row with the greatest height"},
 			{ID: "C13-read", Floor: 2, Run: c13ReadFaults, Text: "[DOM] read faults are not 'no certificate'; a status difference is always applied and stored"},
